@@ -122,6 +122,29 @@ def _class_attr(cls, name):
     raise ExtractError('%s.%s not found' % (cls.name, name))
 
 
+def _init_store(fn):
+    """how `SQLiteConnection.__init__` stores the `filename` argument: 'asGiven' when the only assignment to
+    `self.filename` is the plain parameter and the parameter is not rebound before it"""
+    rebound = False
+    stores = []
+    for node in ast.walk(fn):
+        if isinstance(node, (ast.Assign, ast.AugAssign, ast.AnnAssign)):
+            targets = node.targets if isinstance(node, ast.Assign) else [node.target]
+            for t in targets:
+                for n in ast.walk(t):
+                    if isinstance(n, ast.Name) and n.id == 'filename':
+                        rebound = True
+                    if isinstance(n, ast.Attribute) and n.attr == 'filename' and isinstance(n.value, ast.Name) \
+                            and n.value.id == 'self':
+                        stores.append(node.value)
+    if not stores:
+        raise ExtractError('SQLiteConnection.__init__ does not assign self.filename')
+    plain = all(isinstance(v, ast.Name) and v.id == 'filename' for v in stores)
+    if plain and not rebound:
+        return 'asGiven', 'self.filename = filename'
+    return 'other', '; '.join('self.filename = ' + ast.unparse(v) for v in stores) + (' (filename is rebound)' if rebound else '')
+
+
 def extract(repo):
     dbc = parse(repo, 'sqlobject/dbconnection.py')
     g = _expect(find_func(find_class(dbc, 'DBConnection'), 'uri'), GENERIC_SKELETON, 'DBConnection.uri')
@@ -195,6 +218,13 @@ def extract(repo):
     d('sqlitePrefix', sf[0], '`%r %% path`: the literal before the argument' % s_fmt)
     d('sqliteOpenMemoryPath', open_path, '`SQLiteConnection._connectionFromParams`: `if path == %r`' % open_path)
     d('sqliteOpenMemoryName', open_name, '`path = %r`' % open_name)
+    out.append('')
+    store, how = _init_store(find_func(scls, '__init__'))
+    out.append('/-- how `SQLiteConnection.__init__` stores its `filename` argument -/')
+    out.append('inductive InitStore | asGiven | other')
+    out.append('deriving DecidableEq, Repr')
+    out.append('/-- `%s` -/' % how.replace('-/', '- /'))
+    out.append('def sqliteInitStore : InitStore := .%s' % store)
     out.append('')
     out.append('/-- `dbName` of the connection classes that inherit `DBConnection.uri`: %s -/'
                % ', '.join('%s=%r' % x for x in schemes))
